@@ -131,7 +131,17 @@ def run(ctx):
     for name in unknown:
         f = pub[name]
         s0 = m.w.effects.summary(f)
-        direct = [(loc, what) for (loc, _b, _sp, what) in s0["sites"] if loc.root[0] in ("param", "unknown") and not (what.startswith("call ") and what[5:] in known and what[5:] != "new")]
+        uq = m.q(f)
+
+        def through_ruled(b, what):
+            """the write at block b happens inside a call of a ruled public method OF THE MARKET (not of a book: `self.order_books[0]
+            .set_time(..)` is a direct write)"""
+            if not (what.startswith("call ") and what[5:] in known and what[5:] != "new"):
+                return False
+            t = uq.fn.body.blocks[b].term if b < len(uq.fn.body.blocks) else None
+            tgt = ctx.prog.target(t) if t is not None and t.k == "call" else None
+            return tgt is not None and (tgt.impl_adt or "").endswith("market::Market") and tgt.name == what[5:]
+        direct = [(loc, what) for (loc, b_, _sp, what) in s0["sites"] if loc.root[0] in ("param", "unknown") and not through_ruled(b_, what)]
         if direct or s0["unknown"]:
             uncovered.append("%s (writes %s)" % (name, sorted({what for _l, what in direct}) or s0["unknown"][:1]))
         else:
